@@ -53,6 +53,10 @@ CHECKS = {
   "Per generated image every page body is damaged in turn (every bit, every byte, a burst at every byte offset) and read back through the three transports with verification on: no row of the damaged page may be delivered, what is delivered before is a correct prefix, and the read must end in an error; the undamaged image must verify (CRCs written by carquet and, on peer files, by zlib); a sample of damages is re-read with verification off under ASan (safety only) and through the batch reader. Exhaustive per image in the thorough tier, rotating transports per bit in the quick tier.",
   "Trusted: peer reader's page map (body offsets, first entry per page), zlib crc32 on the peer side. The CRC function for arbitrary lengths/alignments and carquet_crc32_update composition are pure and only decided as far as the file layer computes CRCs.",
   "deterministic simulation: storage bit-rot enumeration inside every page body x 3 transports", "7 C14"),
+ "C04": ("exploration",
+  "Storage corruption between a valid write and a read: structure-aware mutation of footer fields through the peer's Thrift value tree (boundary values, list surgery, retyped/dropped fields, nesting bombs), inconsistencies planted by the peer writer with coherent offsets (page type/sizes/crc/num_values/encodings/dictionary size/index bit width/level-block lengths), payload damage with verification off, lost/duplicated/misdirected blocks, truncation, garbage, plus input-stream faults; each image is opened through three transports and driven by a seeded history of every public reader call with exact-size caller buffers. Oracle: ASan + UBSan subset + guard-paged mapping, per-call tick budget, error contract, allocation ledger and stream/mapping registry empty after close.",
+  "Trusted: ASan/UBSan, the tick clock (basic blocks of instrumented carquet code; zlib/zstd/libc time only under the 90 s wall-clock backstop), the allocator cap (64 MiB per request, 256 MiB live) that turns huge counts into handled-or-not outcomes. Sampling of an infinite input space.",
+  "deterministic simulation: storage-fault injection on valid images + seeded API histories under sanitizers and a logical-time budget", "7 C04"),
 }
 def chk(pid):
     cat,text,note,tech,ref = CHECKS[pid]
